@@ -1,9 +1,10 @@
+\* the seeded defect C16-e: TLC finds the third start that runs alongside the first
 SPECIFICATION Spec
-CONSTANTS Agents = {"a1","a2"}
- NSteps = 2
+CONSTANTS Agents = {"a1","a2","a3"}
+ NSteps = 1
  AllowCrash = FALSE
  FixStatus = TRUE
- BindFailUnlinks = FALSE
+ BindFailUnlinks = TRUE
  ExclusiveBind = TRUE
 INVARIANTS C16_NoOverlap C16_RefusedRecordsNothing C16_Undisturbed
 CHECK_DEADLOCK FALSE
